@@ -316,6 +316,13 @@ func s35Edits() []s35Edit {
 		es = append(es, valueEdit(t, "SetSubSegmentsExpected", "SubSegmentsExpected", p+"subExp", 8, 8, 8, hasSub))
 		es = append(es, boolEdit(t, "SetHasSubSegments", "HasSubSegments", segAt(j, func(d s35Desc) bool { return liveDesc(d) && (d.typeID == 0x34 || d.typeID == 0x36) }),
 			func(v bool, sh *s35Shape, vals map[string][]Bit) { sh.descs[j].hasSub = v })...)
+		// the flag set on a descriptor whose type has no sub-segment fields in
+		// SCTE 35 (anything but 0x34/0x36): the encoding stays the canonical one
+		// without them — the decoder would not read them back (seed C09i)
+		es = append(es, s35Edit{target: t, method: "SetHasSubSegments", what: "(true) on a type without sub-segment fields",
+			applies: segAt(j, func(d s35Desc) bool { return liveDesc(d) && d.typeID != 0x34 && d.typeID != 0x36 }),
+			args:    func(n *nav) []Val { return []Val{boolConst(true)} },
+			effect:  func(sh *s35Shape, vals map[string][]Bit) {}})
 		for _, ty := range []int{0x10, 0x34, 0x36, 0x30} {
 			ty := ty
 			es = append(es, s35Edit{target: t, method: "SetTypeID", what: fmt.Sprintf("(%#x)", ty), applies: live,
